@@ -332,3 +332,48 @@ def name_defs(fnode, name):
                     if isinstance(a, ast.Name) and a.id == name:
                         out.append((b, n))
     return out
+
+
+def check_no_class_level_containers(ctx, repo, rid, classes, why):
+    """classes: [(module, class name)].  A container (or None placeholder later filled in place) assigned in the CLASS BODY is one object
+    shared by every instance; per-instance state has to be created in __init__."""
+    is_container = lambda v: isinstance(v, (ast.Dict, ast.List, ast.Set, ast.ListComp, ast.DictComp, ast.SetComp)) or (isinstance(v, ast.Call) and callee_name(v) in (
+        "dict", "list", "set", "OrderedDict", "defaultdict", "deque", "WeakValueDictionary", "WeakKeyDictionary", "Counter", "bytearray"))
+    n_cls = 0
+    for mod, cname in classes:
+        m = repo.modules.get(mod)
+        c = m.classes.get(cname) if m else None
+        if c is None:
+            continue
+        n_cls += 1
+        ctx.instance(rid, f"{mod}:{cname}", "class body")
+        bad = []
+        for n in c.body:
+            if isinstance(n, (ast.Assign, ast.AnnAssign)) and getattr(n, "value", None) is not None and is_container(n.value):
+                for t in (n.targets if isinstance(n, ast.Assign) else [n.target]):
+                    if isinstance(t, ast.Name) and not (t.id.isupper() or t.id.startswith("__")):
+                        # a class-level container that no method ever writes through self/cls is a constant table: fine
+                        written = False
+                        for f in m.funcs.values():
+                            if f.cls != cname:
+                                continue
+                            for x in walk_local(f.node):
+                                if isinstance(x, ast.Attribute) and x.attr == t.id and isinstance(x.value, ast.Name) and x.value.id in ("self", "cls", cname):
+                                    p = getattr(x, "_parent", None)
+                                    if isinstance(x.ctx, (ast.Store, ast.Del)):
+                                        continue          # rebinding on the instance shadows the class attribute: not a write of the shared object
+                                    if isinstance(p, ast.Subscript) and isinstance(p.ctx, (ast.Store, ast.Del)):
+                                        written = True
+                                    if isinstance(p, ast.Attribute) and isinstance(getattr(p, "_parent", None), ast.Call) and p._parent.func is p and \
+                                            p.attr in ("append", "add", "update", "setdefault", "insert", "extend", "pop", "clear", "popitem", "appendleft", "remove", "discard"):
+                                        written = True
+                        inits = [f for f in m.funcs.values() if f.cls == cname and f.name == "__init__"]
+                        rebound = any(isinstance(x, ast.Attribute) and x.attr == t.id and isinstance(x.ctx, ast.Store) and isinstance(x.value, ast.Name) and x.value.id == "self"
+                                      for f in inits for x in walk_local(f.node))
+                        if written and not rebound:
+                            bad.append((t.id, n))
+        for name, n in bad:
+            ctx.ob(rid, f"{mod}:{cname}", f"{cname} keeps no mutable state in its class body", False, node=n, construct=f"class-level container {cname}.{name} written in place",
+                   msg=f"`{name}` is created once in the class body of {cname} and methods write it in place without __init__ giving each instance its own: every instance shares one object - {why}")
+        ctx.ob(rid, f"{mod}:{cname}", f"no container of the class body of {cname} is written in place by its methods unless __init__ rebinds it per instance", not bad, construct=f"{cname} class-level state")
+    return n_cls
